@@ -79,7 +79,7 @@ class SLock(Prim):
         return _rt().current_ctx().extra.setdefault('held', {})
 
     def acquire(self, blocking=True, timeout=-1):
-        has_to = timeout is not None and timeout >= 0 and blocking
+        has_to = timeout is not None and 0 <= timeout < float('inf') and blocking
         r = self._op('acquire', bool(blocking), bool(has_to))
         if r:
             h = self._held()
@@ -326,10 +326,10 @@ class SFuture(Prim):
             self._real = _cf.Future()
 
     def result(self, timeout=None):
-        return self._op('result', timeout is not None)
+        return self._op('result', timeout is not None and timeout < float('inf'))
 
     def exception(self, timeout=None):
-        return self._op('exception', timeout is not None)
+        return self._op('exception', timeout is not None and timeout < float('inf'))
 
     def set_result(self, v):
         return self._op('set_result', v)
